@@ -353,7 +353,7 @@ META["C17"] = {
 
 META["C18"] = {
     "title": "Local and thread-safe variants are observationally equivalent",
-    "rule": "cases = the C01 pipeline generator (whole catalogue, 1-3 hot inputs, stashed create handles, cold and timed sources, depth <= 3 quick / <= 5 thorough) with its timed scripts; every case is built twice - local builder and threads builder (every operator, subject, subscription and scheduler in its _threads / Threads form) - and driven from one thread with the same FIFO executor and the same explorer seed. The final subscriber's trace (notifications and virtual stamps; stamps dropped when the pipeline reads the real clock through an _at form) must be identical. Second battery (counter subject_histories_compared): random histories of length 3..11 quick / 3..17 thorough over subscribe(k) / unsubscribe(k) / arm-a-subscribe-from-inside-subscriber-k's-callback / next / complete / error / retain() run on Subject and on SubjectThreads from one thread: the global order of deliveries across all subscribers and the len()/is_empty() readings after every step must be identical (a history on which the local subject panics is skipped). Non-trivial: the pair delivered at least one notification and contains an operator with a hand-duplicated threads part; distinct = hash(pipeline, scripts).",
+    "rule": "cases = the C01 pipeline generator (whole catalogue, 1-3 hot inputs, stashed create handles, cold and timed sources, depth <= 3 quick / <= 5 thorough) with its timed scripts; every case is built twice - local builder and threads builder (every operator, subject, subscription and scheduler in its _threads / Threads form) - and driven from one thread with the same FIFO executor and the same explorer seed. The final subscriber's trace (notifications and virtual stamps; stamps dropped when the pipeline reads the real clock through an _at form) must be identical. A third of the pairs (counter pairs_unsubscribed_along_the_way) are unsubscribed before a seeded explorer step, in both forms alike, while the remaining events are still injected and everything pending still runs. Second battery (counter subject_histories_compared): random histories of length 3..11 quick / 3..17 thorough over subscribe(k) / unsubscribe(k) / arm-a-subscribe-from-inside-subscriber-k's-callback / next / complete / error / retain() run on Subject and on SubjectThreads from one thread: the global order of deliveries across all subscribers and the len()/is_empty() readings after every step must be identical (a history on which the local subject panics is skipped). Non-trivial: the pair delivered at least one notification and contains an operator with a hand-duplicated threads part; distinct = hash(pipeline, scripts).",
     "assumptions": COMMON_ASSUME + [
         "group_by terminates its groups in HashMap order: inside generated pipelines it is always flattened, which makes that order unobservable",
         "a panic in both forms at once counts as equivalent here (panics are C05/C10's business)",
@@ -362,7 +362,7 @@ META["C18"] = {
     "level_text": "Exploration over sampled pipelines; pairwise trace equality.",
     "level_note": "Trusted: the two builder flavours come from one macro; explorer determinism.",
     "design_ref": "DESIGN.md §5 C18",
-    "require": {"quick": {"dual_form_operators_covered": 15, "subject_histories_compared": 100000}, "thorough": {"dual_form_operators_covered": 15, "subject_histories_compared": 3000000}},
+    "require": {"quick": {"dual_form_operators_covered": 15, "subject_histories_compared": 100000, "pairs_unsubscribed_along_the_way": 50000}, "thorough": {"dual_form_operators_covered": 15, "subject_histories_compared": 3000000}},
 }
 
 META["C10"] = {
